@@ -30,6 +30,7 @@
 #include "oomd/config/JsonConfigParser.h"
 #include "oomd/include/Assert.h"
 #include "oomd/util/Fs.h"
+#include "oomd/util/ScopeGuard.h"
 #include "oomd/util/Util.h"
 
 static constexpr auto kMaxEvents = 10;
@@ -227,6 +228,15 @@ void FsDropInService::processDropInAdd(const std::string& file) {
 
   OLOG << "Adding drop in config=" << file;
 
+  // Whatever goes wrong below, the file no longer holds the config we may
+  // have injected for it earlier: make sure that stale version is dropped.
+  bool injected = false;
+  OOMD_SCOPE_EXIT {
+    if (!injected) {
+      scheduleDropInRemove(file);
+    }
+  };
+
   std::ifstream dropin_file(drop_in_dir_ + '/' + file, std::ios::in);
   if (!dropin_file.is_open()) {
     OLOG << "Could not open drop in config=" << file;
@@ -252,7 +262,9 @@ void FsDropInService::processDropInAdd(const std::string& file) {
   if (!scheduleDropInAdd(file, *dropin_root)) {
     OLOG << "Could not compile drop in config";
     OLOG << "Failed to inject drop in config into engine";
+    return;
   }
+  injected = true;
 }
 
 int FsDropInService::processDropInWatcher(int fd) {
